@@ -266,7 +266,7 @@ theorem C01_feed_complete (src : Nat → Nat) (h : Feed.SrcOk src) (low high : N
     163 < n ≤ stop: n is prime iff its pre-sieved bit is set and none of the sieving primes that have been ADDED BY THE
     LOOP when the segment is sieved (each at the segment start where the loop added it) crosses it off.
     Assumed of SievingPrimes::next(): it delivers the primes of (163, isqrt(stop)] in increasing order, then ~0ull
-    (validated by the segment and sprimes streams; the inner sieve is the same Erat code one level down). -/
+    (validated by the `sp` operations of the segment stream, which drain the real SievingPrimes object; the inner sieve is the same Erat code one level down). -/
 theorem C01_loop_segments_correct (big : Nat → Bool) (src : Nat → Nat) (hsrc : Feed.SrcOk src)
     (cfg : EratCfg) (start stop kib : Nat) (h7 : 7 ≤ start) (hss : start ≤ stop) (hst : stop ≤ umax) (hsu : start < umax)
     (hprimes : ∀ i, src i < umax → (src i).Prime ∧ 163 < src i)
